@@ -14,8 +14,8 @@ EXTENDS Gen_pairs, AstWalk, Dict
 \* percent signs (format verbs), both quotes, backslashes (also last), newline, comment and
 \* separator characters, a dot, spaces, a digit first, a keyword, a parameter sign, non-ASCII
 TrickyNames == {"a%sb", "100%", "%d%%", "a\\b", "x\"y", "it's", "l\n2", "a/b", "a.b", "a b", "$x", "a--b", "/*x*/", "1a",
-                "select", "a,b", "a;b", "a=b", "a)b", "::", " ", "é", "_", "a\\", "\\n", "\"\"", "a'", "x\\\"y"}
-TrickyStrings == {"100%", "a%sb", "%!s(MISSING)", "it's", "say \"hi\"", "a\\b", "l\n2", "a\\", "\\n", "é", "--", "/* c */", ";", " ", "''", "a\\'"}
+                "select", "a,b", "a;b", "a=b", "a)b", "::", " ", "é", "_", "a\\", "\\n", "\"\"", "a'", "x\\\"y", "a\tb", "\t"}
+TrickyStrings == {"100%", "a%sb", "%!s(MISSING)", "it's", "say \"hi\"", "a\\b", "l\n2", "a\\", "\\n", "é", "--", "/* c */", ";", " ", "''", "a\\'", "a\tb", "\t", "a\fb"}
 
 \* identifier tokens that are not names: call names (lower-cased by the parser), data types, words with a meaning
 ReservedNames == {"time", "none", "null", "previous", "linear"}
